@@ -80,33 +80,32 @@ impl CompiledDfa {
         self.current_states.push(StateSetID::new(0));
         self.next_states.clear();
         let mut match_start = None;
-        let mut match_end = None;
-        let mut match_terminal_id = None;
+        // The best candidate found so far: (extent, priority, end of the match, terminal id).
+        // The extent of a candidate is the end of the match plus the length matched by a positive
+        // lookahead. A candidate replaces the best one if its extent is greater or if the extents
+        // are equal and its pattern has the higher priority (lower index).
+        let mut best: Option<(usize, usize, usize, TerminalID)> = None;
         for (index, c) in char_indices {
             if match_start.is_none() {
                 // A potential match starts always at the first position.
-                // Is is only part of a valid match if match_end is also set in the inner for loop.
+                // Is is only part of a valid match if a candidate is found in the inner for loop.
                 match_start = Some(index);
             }
 
             for state in self.current_states.iter() {
-                if match_end.is_none() && self.end_states[*state].0 {
-                    match_end = Some(index);
-                }
                 for (cc, next) in &self.states[*state].transitions {
                     if match_char_class(*cc, c) {
                         if !self.next_states.contains(next) {
                             self.next_states.push(*next);
                         }
                         if self.end_states[*next].0 {
+                            let terminal_id = self.end_states[*next].1;
+                            let match_end = index + c.len_utf8();
                             let mut lookahead_len = 0;
                             // Check if a lookahead is present and if it is satisfied.
-                            if let Some(lookahead) = self.lookaheads.get(&self.end_states[*next].1)
-                            {
+                            if let Some(lookahead) = self.lookaheads.get(&terminal_id) {
                                 // Create a CharIndices iterator starting from the current position.
-                                if let Some((_, next_slice)) =
-                                    input.split_at_checked(index + c.len_utf8())
-                                {
+                                if let Some((_, next_slice)) = input.split_at_checked(match_end) {
                                     let char_indices = next_slice.char_indices();
                                     let mut lookahead = lookahead.clone();
                                     let (satisfied, len) = lookahead.satisfies_lookahead(
@@ -127,31 +126,19 @@ impl CompiledDfa {
                                     }
                                 }
                             }
-                            // Update the match end and terminal id if the match is longer or the
-                            // terminal id is lower.
-                            if let Some(match_end_index) = match_end.as_ref() {
-                                match (index + c.len_utf8()).cmp(&(match_end_index + lookahead_len))
-                                {
-                                    std::cmp::Ordering::Greater => {
-                                        match_end = Some(index + c.len_utf8());
-                                        match_terminal_id = Some(self.end_states[*next].1);
-                                    }
-                                    std::cmp::Ordering::Equal => {
-                                        let terminal_id =
-                                            self.priority_of(self.end_states[*next].1);
-                                        if terminal_id
-                                            < self.priority_of(match_terminal_id.unwrap())
-                                        {
-                                            match_terminal_id = Some(self.end_states[*next].1);
-                                        }
-                                    }
-                                    std::cmp::Ordering::Less => {
-                                        match_terminal_id = Some(self.end_states[*next].1);
-                                    }
+                            // Update the best candidate if the extent is greater or the priority
+                            // is higher at the same extent.
+                            let extent = match_end + lookahead_len;
+                            let priority = self.priority_of(terminal_id);
+                            let is_better = match best {
+                                Some((best_extent, best_priority, _, _)) => {
+                                    extent > best_extent
+                                        || (extent == best_extent && priority < best_priority)
                                 }
-                            } else {
-                                match_end = Some(index + c.len_utf8());
-                                match_terminal_id = Some(self.end_states[*next].1);
+                                None => true,
+                            };
+                            if is_better {
+                                best = Some((extent, priority, match_end, terminal_id));
                             }
                         }
                     }
@@ -163,11 +150,11 @@ impl CompiledDfa {
                 break;
             }
         }
-        match_terminal_id.map(|match_terminal_id| {
-            // If the terminal id is set, match_start and match_end must always be set as well.
+        best.map(|(_, _, match_end, terminal_id)| {
+            // If a candidate was found, match_start must always be set as well.
             Match::new(
-                match_terminal_id.as_usize(),
-                Span::new(match_start.unwrap(), match_end.unwrap()),
+                terminal_id.as_usize(),
+                Span::new(match_start.unwrap(), match_end),
             )
         })
     }
